@@ -207,6 +207,7 @@ class DiagLinearOperator(TriangularLinearOperator):
             return DenseLinearOperator(self @ other.tensor)
 
         if isinstance(other, DiagLinearOperator):
+            _matmul_broadcast_shape(self.shape, other.shape)  # raises if the shapes do not fit
             return DiagLinearOperator(self._diag * other._diag)
 
         if isinstance(other, TriangularLinearOperator):
